@@ -38,3 +38,8 @@ claim("C11",
       "For every enumerated / generated query and a default-field name that does not occur in it: acceptance is the same with and without the option; erasing every f: scoping from the scoped tree gives exactly the unscoped tree; no bare term remains in operand position; f never appears inside another field's value, range bound or list.",
       "The erase / bare-term / re-scoping walks are harness code (trusted). Queries that use f explicitly are outside the property.",
       "DESIGN.md section 4, C11")
+claim("C12",
+      "rapid trees with JSON-hostile values + accepted part of the exhaustive enumeration; encode/decode round trip against the original tree",
+      "Every accepted valid-UTF-8 query generated (all operators, leaf forms, hostile strings incl. empty / non-ASCII / \"min\": / * ? / slashes, int edges above 2^53, decimals, NaN-like words, boost and fuzzy parameters) is encoded, decoded, validated, shape-checked, re-encoded (byte-identical), printed and rendered inline and parameterized (identical incl. errors); deep equality is required unless the tree holds one of the three exempted leaf forms, whose rate is reported.",
+      "encoding/json and reflect.DeepEqual are trusted; queries with invalid UTF-8 are outside the property.",
+      "DESIGN.md section 4, C12")
